@@ -158,6 +158,25 @@ def handleZone (toks : List String) : Option String :=
           let du ← Dur.new du
           zdtAdd tz ns (if op == "zdt_add" then du else du.negated) ov : Out Int).render toString)
       | _ => none
+    else if op == "zdt_until2" || op == "zdt_since2" then do
+      -- zdt_until2 z1 z2 ns1 ns2 largest smallest inc mode (here `z` = z1, `ns` = z2)
+      let tz ← zone? z
+      let z2 := ns
+      let _ ← zone? z2
+      match rest with
+      | [a, b, l, s, inc, m] => do
+        let a ← int? a; let b ← int? b
+        let o ← rawOptions l s inc m
+        -- both synthetic zones carry the same identifier; otherwise zones are equal iff their descriptions are
+        let same : Bool := z == z2 || (z.startsWith "z:" && z2.startsWith "z:")
+        match zdtNew a, zdtNew b, o with
+        | .ok a, .ok b, .ok o =>
+          some ((zdtDiffFullZ (op == "zdt_since2") tz same a b o).render Dur.render)
+        | .ok _, .ok _, .err k => some ("err " ++ k.name)
+        | .ok _, .err k, _ => some ("err " ++ k.name)
+        | .err k, _, _ => some ("err " ++ k.name)
+        | _, _, _ => some "panic"
+      | _ => none
     else if op == "zdt_until" || op == "zdt_since" then do
       let tz ← zone? z; let a ← int? ns
       match rest with
